@@ -549,3 +549,15 @@ def container_additions(f: FuncInfo, is_target: Callable[[ast.AST], bool]):
         elif isinstance(n, ast.Assign) and any(is_target(t) for t in n.targets):
             from_value(n.value, n)
     return out
+
+
+def roots(repo: Repo, modules: Iterable[str]) -> List[FuncInfo]:
+    """the functions of the given modules as analysis units: every function flattened, minus the private helpers that are
+    analysed in place inside some other unit (so a helper is always seen in the context it is called from)"""
+    from .inline import flatten
+    mods = [repo.module(m) for m in modules]
+    flats = [flatten(repo, f) for f in repo.all_funcs() if f.mod in mods]
+    inlined = set()
+    for ff in flats:
+        inlined |= set(getattr(ff, "inlined", ()))
+    return [ff for ff in flats if ff.qn not in inlined]
